@@ -405,9 +405,11 @@ func (sc *streamCase) frameBody(g *prng, e *altEnc) []byte {
 	switch g.intn(14) {
 	case 0:
 		claimed++ // content shorter than the header implies
+		sc.note = append(sc.note, "hdrshort")
 	case 1:
 		if claimed > 1 {
 			claimed-- // content longer
+			sc.note = append(sc.note, "hdrlong")
 		}
 	}
 	if claimed > 15 {
@@ -417,6 +419,7 @@ func (sc *streamCase) frameBody(g *prng, e *altEnc) []byte {
 	hdr := byte(0x90 + claimed)
 	if g.chance(1, 40) {
 		hdr = []byte{0x90, 0x80, 0xdc, 0xc0, 0xa1, 0x00}[g.intn(6)]
+		sc.note = append(sc.note, "badhdr")
 	}
 	body.WriteByte(hdr)
 	for _, f := range fields {
@@ -743,7 +746,18 @@ func init() {
 					parts = append(parts, splitAt(sc.stream, cuts))
 				}
 			}
-			for _, chunks := range parts {
+			cat := "legal"
+			if hostileCase {
+				cat = "hostile"
+			} else {
+				for _, n := range sc.note {
+					if n == "badtype" || n == "short" || n == "junkfields" || n == "hdrshort" || n == "hdrlong" || n == "badhdr" {
+						cat = "invalid"
+					}
+				}
+			}
+			for pi, chunks := range parts {
+				c.note("%s stream=%d part=%d len=%d kinds=%s", cat, i, pi, len(sc.stream), strings.Join(sc.note, ","))
 				c.op("run %d %s %s", sc.max, sc.ctxText(), chunkHex(chunks))
 				out, pan := runPacketizer(sc, chunks)
 				if pan != nil {
